@@ -58,7 +58,10 @@ def split_on_reason_table(vc, status):
     return status
 
 
-@scenario("format_error", functions=[F], markup_proj=True)
+FE_CANDS = [dict(status=st, message=m) for st in (400, 502, 999) for m in ("", "plain text", "<b>\"'", "&amp;<script>alert(1)</script>", "&amp;", "a&b<c>", "&#39;<")]
+
+
+@scenario("format_error", functions=[F], markup_proj=True, candidates=FE_CANDS)
 def s_format_error(vc):
     status = vc.sym_int("status")
     msg = vc.sym_str("message")
@@ -95,7 +98,13 @@ def _body_summary(vc, body, calls):
     vc.summary("mitmproxy.proxy.layers.http._http3:format_error", summ)
 
 
-@scenario("make_error_response", functions=[M, "mitmproxy.http:Response.make", "mitmproxy.net.http.http1.assemble:assemble_response"])
+# concrete page bodies (small, and larger than any plausible size cap) tried first as counter-models: obligations whose only
+# counter-models are pages of many kilobytes are otherwise beyond the string solvers
+MER_CANDS = [dict(status=st, message="m", body=bd) for st in (400, 502) for bd in (b"<html>x</html>", b"<html>" + b"x" * 9000 + b"</html>", b"<html>" + b"y" * 70000 + b"</html>")]
+
+
+@scenario("make_error_response", functions=[M, "mitmproxy.http:Response.make", "mitmproxy.net.http.http1.assemble:assemble_response"],
+          candidates=MER_CANDS, candidates_first=True)
 def s_make_error_response(vc):
     status = vc.sym_int("status", lo=100, hi=599)
     msg = vc.sym_str("message")
@@ -512,14 +521,20 @@ def bounded(tier, seed):
     b = Bounded()
     b.rule = ("inputs that make mitmproxy generate an error page: malformed request line / header line / field name / Content-Length / Transfer-Encoding / "
               "authority / missing Host, unreachable upstream (error text), oversized request and response bodies, invalid response head / response framing from "
-              "the origin, each with a markup marker (<script>, both quote characters, &) placed in the reflected position; HTTP/1 client (whole / 1-byte / "
+              "the origin, each with a markup marker (<script>, both quote characters, &) placed in the reflected position - plain, next to character references "
+              "(&amp;&lt;&#39;), and inside a 9 kB (thorough: also 70 kB) message; HTTP/1 client (whole / 1-byte / "
               "pipelined behind a good request) and HTTP/2 client (through a real hyper-h2 peer); distinct = (case, delivery); non-trivial = a page was sent")
-    b.bound = "one marker per position; HTTP/1 and HTTP/2 clients; regular proxy mode"
-    M = MARKER
+    b.bound = "three (thorough: four) markers per position; reflected messages <= 9 kB (thorough 70 kB); HTTP/1 and HTTP/2 clients; regular proxy mode"
     good = mk_request(b"GET", target=b"http://example.com/ok")
     ok_resp = (b"HTTP/1.1 200 OK\r\nContent-Length: 2\r\n\r\nok", False)
     cases = []  # (label, client stream, responses, kwargs, expected status, reflection expected)
-    cases += [
+    # markers: plain markup; markup next to a character reference (text that "looks escaped already"); markup in a message that
+    # makes the page larger than 8 kB / 64 kB (whole delivery only)
+    markers = [("", MARKER), ("+charref", b"&amp;&lt;&#39;" + MARKER), ("+9k", MARKER + b"A" * 9000)]
+    if tier != "quick":
+        markers.append(("+70k", MARKER + b"B" * 70000))
+    for mtag, M in markers:
+      cases += [(lab + mtag, st, rs, kw, code, refl) for lab, st, rs, kw, code, refl in [
         ("request-line", b"GET / " + M + b" HTTP/1.1\r\nHost: x\r\n\r\n", [], {}, 400, True),
         ("request-line-target", b"GET http://example.com/" + M.replace(b" ", b"") + b" HTTP/9.9.9\r\nHost: x\r\n\r\n", [], {}, 400, True),
         ("request-version", b"GET / " + M + b"\r\nHost: x\r\n\r\n", [], {}, 400, True),
@@ -548,11 +563,13 @@ def bounded(tier, seed):
         ("response-te-and-cl", good, [(mk_response(lines=[b"Transfer-Encoding: chunked", b"Content-Length: 3", b"X-A: " + M]), False)], {}, 502, False),
         ("response-bad-chunk", good, [(mk_response(lines=[b"Transfer-Encoding: chunked"], body=M + b"\r\n"), False)], {}, 502, False),
         ("server-closes", good, [(b"", True)], {}, 502, False),
-    ]
+      ]]
     n_pages = 0
     for label, stream, responses, kw, status, reflect in cases:
         for delivery, prefix in itertools.product(["whole", "bytes"], [b"", good]):
-            if prefix and (label == "upstream-unreachable" or tier == "quick" and delivery == "bytes"):
+            if prefix and (label.startswith("upstream-unreachable") or tier == "quick" and delivery == "bytes"):
+                continue
+            if delivery == "bytes" and (label.endswith("k") or (tier == "quick" and "+" in label)):
                 continue
             full = prefix + stream
             segs = [full] if delivery == "whole" else [full[i:i + 1] for i in range(len(full))]
@@ -572,7 +589,7 @@ def bounded(tier, seed):
                 b.fail("c12.http1_page_complete_and_framed", inp, f"{d['state']} ({d['why']}): {ex.to_client()!r}")
                 continue
             if not pages:
-                if label not in ("server-closes",):
+                if not label.startswith("server-closes"):
                     b.fail("c12.error_is_answered_with_a_page", inp, f"no error page: to client {ex.to_client()!r}; flows {ex.flows!r}")
                 continue
             n_pages += 1
@@ -603,16 +620,17 @@ def _h2_cases(b, tier):
     from props import sansio, h2peer
     from props import http1ref as R
     from props.C01 import mk_response
-    M = MARKER
     n = 0
-    cases = [
+    cases = []
+    for mtag, M in [("", MARKER), ("+charref", b"&amp;&lt;&#39;" + MARKER), ("+9k", MARKER + b"A" * 9000)]:
+      cases += [(lab + mtag, kw, orr, code, refl, M) for lab, kw, orr, code, refl in [
         ("h2.upstream-unreachable", {"open_error": M.decode()}, None, 502, True),
         ("h2.response-field-name", {}, mk_response(lines=[M + b": 1", b"Content-Length: 0"]), 502, True),
         ("h2.response-content-length", {}, mk_response(lines=[b"Content-Length: " + M]), 502, True),
         ("h2.response-status-line", {}, b"HTTP/1.1 " + M + b" OK\r\n\r\n", 502, True),
         ("h2.response-too-large", {"options": {"body_size_limit": "10"}}, mk_response(lines=[b"Content-Length: 100", b"X-A: " + M], body=b"x" * 100), 502, False),
-    ]
-    for label, kw, origin_resp, status, reflect in cases:
+      ]]
+    for label, kw, origin_resp, status, reflect, M in cases:
         inp = {"case": label, "open_error": kw.get("open_error"), "origin_response": origin_resp.decode("latin-1") if origin_resp else None}
         try:
             opts = R.get_options(**kw["options"]) if "options" in kw else R.get_options()
